@@ -163,6 +163,46 @@ func (ev *Evaluator) applyBuiltin(name string, vals []Val) []Alt {
 			eq := valEqual(vals[0], vals[1])
 			return []Alt{{smt.True, ast.Boolean(eq == (name == "equal"))}}
 		}
+		// OPA's total order: null < boolean < number < string < array < object < set
+		rank := func(v Val) int {
+			switch x := v.(type) {
+			case *SObj:
+				return 5
+			case *SArr:
+				return 4
+			case *SSet:
+				return 6
+			case ast.Value:
+				switch x.(type) {
+				case ast.Null:
+					return 0
+				case ast.Boolean:
+					return 1
+				case ast.Number:
+					return 2
+				case ast.String:
+					return 3
+				case *ast.Array:
+					return 4
+				case ast.Object:
+					return 5
+				case ast.Set:
+					return 6
+				}
+			}
+			return -1
+		}
+		if ra, rb := rank(vals[0]), rank(vals[1]); ra >= 0 && rb >= 0 && ra != rb {
+			less := ra < rb
+			var r bool
+			switch name {
+			case "lt", "lte":
+				r = less
+			default:
+				r = !less
+			}
+			return []Alt{{smt.True, ast.Boolean(r)}}
+		}
 		unsupportedf("ordering comparison on %s / %s", describe(vals[0]), describe(vals[1]))
 	case "minus":
 		ta, oka := countTerm(vals[0])
@@ -266,6 +306,12 @@ func (ev *Evaluator) applyBuiltin(name string, vals []Val) []Alt {
 		return mergeAlts(alts)
 	case "concat", "sprintf", "json.marshal", "format_int", "to_number":
 		return []Alt{{smt.True, &Opaque{id: nextID(), Tag: name}}}
+	}
+	for _, v := range vals {
+		if _, isObj := v.(*SObj); isObj {
+			// no other built-in in use accepts an object operand: a type error, i.e. undefined
+			return nil
+		}
 	}
 	unsupportedf("built-in %s on guarded operands (%s)", name, describeAll(vals))
 	return nil
